@@ -329,6 +329,9 @@ def boundary_variants(opt, with_kind=False):
                     break
             add(k, v + 1, "interior")
             add(k, v - 1, "interior")
+            for c in (v // 5, v // 12, v // 20):             # a ladder between the smallest accepted and the documented value
+                if c >= 2:
+                    add(k, c, "interior")
         elif isinstance(v, float):
             for c in (0.0, 1e-9, v / 10.0, v / 2.0):
                 if add(k, c):
